@@ -2,7 +2,7 @@ from lanes import *  # noqa
 
 PROP = {
     "level": "exploration",
-    "level_text": "Seeded exploration with a first-wins reference model as oracle: every generated collection is enumerated once with for_each and get / pull / is_unique / dedup() / early Break are compared against that single enumeration, on the value, behind &, through dyn ErasedProps, through dedup() (and its erased view) and as_map(). Workloads: ~150 k (quick) to 6 M (thorough) random nestings of every collection the public API offers (pairs, arrays, slices, Vec via slice, BTreeMap, HashMap, Option, And, Box, Arc, &, dyn ErasedProps, Dedup, AsMap, Span, Metric, Extent, SpanCtxt, ThreadLocalCtxt snapshots, TraceparentCtxtProps, Event::props() as an emitter sees it after emit() appended the ambient context, macro-built __PrivateMacroProps with keys in any order), ~65 fully generic static shapes over 1.5 k / 40 k seeded entry sets, and 53 fixed props!/evt!/emit! call sites mixing plain, renamed, optional and cfg'd keys whose message must interpolate every hole. Held-on-what-was-observed over the shapes and key sets that were generated, not a proof over all nestings; the generated-programs lane for macro call sites is added separately.",
+    "level_text": "Seeded exploration with a first-wins reference model as oracle: every generated collection is enumerated once with for_each and get / pull / is_unique / dedup() / early Break are compared against that single enumeration, on the value, behind &, through dyn ErasedProps, through dedup() (and its erased view) and as_map(). Workloads: ~150 k (quick) to 6 M (thorough) random nestings of every collection the public API offers (pairs, arrays, slices, Vec via slice, BTreeMap, HashMap, Option, And, Box, Arc, &, dyn ErasedProps, Dedup, AsMap, Span, Metric, Extent, SpanCtxt, ThreadLocalCtxt snapshots, TraceparentCtxtProps, Event::props() as an emitter sees it after emit() appended the ambient context, macro-built __PrivateMacroProps with keys in any order, and outer arrays / slices / Vecs of length 0-2 whose elements are themselves collections that repeat keys), ~105 fully generic static shapes over 1 k / 30 k seeded entry sets (including length-0/1/2 containers of non-unique elements), and 53 fixed props!/evt!/emit! call sites mixing plain, renamed, optional and cfg'd keys whose message must interpolate every hole. One case in three (and 27 static shapes) draws every key as a sub-slice of ONE shared buffer - ancestors of a dotted path that start at the same address with different lengths, suffixes, infixes, repeated segments (equal text at different addresses) - borrowed through every borrowing constructor (&str keys in pairs / arrays / maps, Str::new_ref, span and metric names), and looks keys up with slices of that same buffer and with the very Str the visitor was handed; the model compares keys by content only. Held-on-what-was-observed over the shapes and key sets that were generated, not a proof over all nestings; the generated-programs lane for macro call sites is added separately.",
     "level_note": "Trusts the small reference model in harness/mon/src/bin/c02.rs (first-wins map derived from one enumeration; value identity = Display + Debug text and i64/f64/bool/String casts) and std's catch_unwind. Miri and ASan lanes watch the unsafe casts in Dedup::new / AsMap::new, Str, the lifetime-erased ambient snapshot (ErasedCurrent) and TraceparentCtxtProps's raw pointer while the same workloads run at small scale.",
     "technique": "runtime monitoring: first-wins reference model over seeded collection trees (every edge through dyn ErasedProps), fully generic static shapes and fixed macro call sites; Miri and AddressSanitizer builds of the same monitor",
     "assumptions": [
